@@ -15,6 +15,7 @@ import (
 	"math/big"
 	"strconv"
 	"strings"
+	"time"
 
 	"github.com/sirupsen/logrus"
 
@@ -23,17 +24,43 @@ import (
 )
 
 type ColT struct {
-	ID   int      `json:"id"`   // column number; SQL name c<ID> (id for 0)
-	Kind string   `json:"kind"` // tinyint smallint int bigint (+ " unsigned") | varchar
-	N    int      `json:"n,omitempty"`
+	ID   int      `json:"id"`             // column number; SQL name c<ID> (id for 0)
+	Kind string   `json:"kind"`           // tinyint smallint int bigint (+ " unsigned") | varchar | enum | decimal | date | datetime
+	N    int      `json:"n,omitempty"`    // varchar length / decimal precision
+	S    int      `json:"s,omitempty"`    // decimal scale
+	Coll int      `json:"coll,omitempty"` // varchar collation number (index into collations)
 	Vals []string `json:"vals,omitempty"` // enum members
 	Null bool     `json:"null"`
 }
 
-func (c ColT) isStr() bool { return c.Kind == "varchar" || c.Kind == "enum" }
+func (c ColT) isStr() bool  { return c.Kind == "varchar" || c.Kind == "enum" }
+func (c ColT) isTime() bool { return c.Kind == "date" || c.Kind == "datetime" }
+func (c ColT) isInt() bool  { _, ok := intRange[c.Kind]; return ok }
+func (c ColT) family() string {
+	switch {
+	case c.isInt() || c.Kind == "decimal":
+		return "num"
+	case c.isTime():
+		return "time"
+	}
+	return c.Kind
+}
+
+// collation 0 is the table default (utf8mb4_0900_bin)
+var collations = []string{"utf8mb4_0900_bin", "utf8mb4_0900_ai_ci", "utf8mb4_general_ci", "utf8mb4_bin", "latin1_swedish_ci"}
+
+func collID(name string) int {
+	for i, c := range collations {
+		if c == name {
+			return i
+		}
+	}
+	return -1
+}
 
 type Op struct {
-	Kind  string   `json:"kind"` // add drop modify rename renametable index uniq(nomodel) modifyx(nomodel)
+	Kind  string   `json:"kind"`           // add drop modify rename renametable index addpk droppk uniq(nomodel) modifyx(nomodel)
+	Keys  []int    `json:"keys,omitempty"` // addpk
 	Col   *ColT    `json:"col,omitempty"`
 	Name  int      `json:"name,omitempty"`
 	To    int      `json:"to,omitempty"`
@@ -46,6 +73,7 @@ type Op struct {
 
 type caseT struct {
 	Cols []ColT      `json:"cols"`
+	PK   bool        `json:"pk"` // PRIMARY KEY (id) at creation
 	Rows [][]*string `json:"rows"`
 	Ops  []Op        `json:"ops"`
 }
@@ -67,7 +95,14 @@ var intKinds = []string{"tinyint", "smallint", "int", "bigint", "tinyint unsigne
 
 func (c ColT) sqlType() string {
 	if c.Kind == "varchar" {
+		if c.Coll != 0 {
+			cl := collations[c.Coll]
+			return fmt.Sprintf("varchar(%d) CHARACTER SET %s COLLATE %s", c.N, cl[:strings.Index(cl, "_")], cl)
+		}
 		return fmt.Sprintf("varchar(%d)", c.N)
+	}
+	if c.Kind == "decimal" {
+		return fmt.Sprintf("decimal(%d,%d)", c.N, c.S)
 	}
 	if c.Kind == "enum" {
 		return "enum('" + strings.Join(c.Vals, "','") + "')"
@@ -83,7 +118,16 @@ func (c ColT) sqlDef() string {
 }
 func (c ColT) coqTy() string {
 	if c.Kind == "varchar" {
-		return fmt.Sprintf("(TStr %d)", c.N)
+		return fmt.Sprintf("(TStr %d %d)", c.N, c.Coll)
+	}
+	if c.Kind == "decimal" {
+		return fmt.Sprintf("(TDec %d %d)", c.N, c.S)
+	}
+	if c.Kind == "date" {
+		return "TDate"
+	}
+	if c.Kind == "datetime" {
+		return "TDatetime"
 	}
 	if c.Kind == "enum" {
 		return "(TEnum " + lib.CoqListOf(c.Vals, lib.CoqStr) + ")"
@@ -102,6 +146,13 @@ func coqVal(c ColT, v *string) string {
 	if c.isStr() {
 		return "(VStr " + lib.CoqStr(*v) + ")"
 	}
+	if c.Kind == "decimal" {
+		u, sc := decParse(*v)
+		return fmt.Sprintf("(VDec %s %d)", lib.CoqZStr(u.String()), sc)
+	}
+	if c.isTime() {
+		return "(VTime " + lib.CoqZStr(*v) + ")"
+	}
 	return "(VInt " + lib.CoqZStr(*v) + ")"
 }
 
@@ -112,7 +163,63 @@ func sqlVal(c ColT, v *string) string {
 	if c.isStr() {
 		return "'" + *v + "'"
 	}
+	if c.isTime() { // canonical value: seconds since the epoch
+		sec, _ := strconv.ParseInt(*v, 10, 64)
+		if c.Kind == "date" {
+			return "'" + time.Unix(sec, 0).UTC().Format("2006-01-02") + "'"
+		}
+		return "'" + time.Unix(sec, 0).UTC().Format("2006-01-02 15:04:05") + "'"
+	}
 	return *v
+}
+
+// decParse: "-12.50" -> (-1250, 2)
+func decParse(s string) (*big.Int, int) {
+	sc := 0
+	if i := strings.Index(s, "."); i >= 0 {
+		sc = len(s) - i - 1
+		s = s[:i] + s[i+1:]
+	}
+	u, ok := new(big.Int).SetString(s, 10)
+	if !ok {
+		u = big.NewInt(0)
+	}
+	return u, sc
+}
+
+// decFormat: (-1250, 2) -> "-12.50"
+func decFormat(u *big.Int, sc int) string {
+	neg := u.Sign() < 0
+	d := new(big.Int).Abs(u).String()
+	for len(d) <= sc {
+		d = "0" + d
+	}
+	if sc > 0 {
+		d = d[:len(d)-sc] + "." + d[len(d)-sc:]
+	}
+	if neg {
+		d = "-" + d
+	}
+	return d
+}
+
+func pow10(n int) *big.Int { return new(big.Int).Exp(big.NewInt(10), big.NewInt(int64(n)), nil) }
+
+// rescaleRef: u*10^-s0 at scale s, rounding half away from zero (the SQL rule)
+func rescaleRef(u *big.Int, s0, s int) *big.Int {
+	if s >= s0 {
+		return new(big.Int).Mul(u, pow10(s-s0))
+	}
+	b := pow10(s0 - s)
+	a := new(big.Int).Abs(u)
+	q, r := new(big.Int).QuoRem(a, b, new(big.Int))
+	if new(big.Int).Mul(r, big.NewInt(2)).Cmp(b) >= 0 {
+		q.Add(q, big.NewInt(1))
+	}
+	if u.Sign() < 0 {
+		q.Neg(q)
+	}
+	return q
 }
 
 // reference conversion: representable? (independent of the Coq model: big integers and string lengths)
@@ -130,6 +237,34 @@ func refConv(c ColT, v *string, from ColT) (string, bool, bool) { // value, isNu
 	}
 	if from.Kind == "enum" {
 		return "", false, false // enum -> other families is not generated
+	}
+	if c.isTime() {
+		if !from.isTime() {
+			return "", false, false
+		}
+		sec, _ := strconv.ParseInt(*v, 10, 64)
+		if c.Kind == "date" { // the day is kept, the time of day dropped (SQL conversion rule)
+			sec -= ((sec % 86400) + 86400) % 86400
+		}
+		return strconv.FormatInt(sec, 10), false, true
+	}
+	if from.isTime() {
+		return "", false, false
+	}
+	if c.Kind == "decimal" && (from.isInt() || from.Kind == "decimal") {
+		u, s0 := decParse(*v)
+		u2 := rescaleRef(u, s0, c.S)
+		return decFormat(u2, c.S), false, new(big.Int).Abs(u2).Cmp(pow10(c.N)) < 0
+	}
+	if c.isInt() && from.Kind == "decimal" {
+		u, s0 := decParse(*v)
+		z := rescaleRef(u, s0, 0)
+		lo, _ := new(big.Int).SetString(intRange[c.Kind][0], 10)
+		hi, _ := new(big.Int).SetString(intRange[c.Kind][1], 10)
+		return z.String(), false, z.Cmp(lo) >= 0 && z.Cmp(hi) <= 0
+	}
+	if c.Kind == "decimal" || from.Kind == "decimal" {
+		return "", false, false // decimal <-> text is not generated
 	}
 	if c.Kind == "varchar" {
 		s := *v // numbers print in decimal
@@ -161,6 +296,42 @@ func genVal(r *lib.RNG, c ColT) *string {
 	}
 	if c.Kind == "enum" {
 		return sp(lib.Pick(r, c.Vals))
+	}
+	if c.Kind == "decimal" {
+		max := pow10(c.N)
+		var u *big.Int
+		switch r.Intn(4) {
+		case 0:
+			u = new(big.Int).Sub(max, big.NewInt(1))
+		case 1:
+			u = big.NewInt(int64(r.Intn(2000)) - 1000)
+		default:
+			u = big.NewInt(int64(r.Intn(2000000)) - 1000000)
+		}
+		if new(big.Int).Abs(u).Cmp(max) >= 0 {
+			u = new(big.Int).Sub(max, big.NewInt(1))
+		}
+		if r.Chance(1, 6) { // a ...5 last digit exercises half-way rounding
+			u.Sub(u, new(big.Int).Mod(u, big.NewInt(10)))
+			u.Add(u, big.NewInt(5))
+			if new(big.Int).Abs(u).Cmp(max) >= 0 {
+				u = big.NewInt(5)
+			}
+		}
+		return sp(decFormat(u, c.S))
+	}
+	if c.isTime() {
+		sec := int64(946684800) + int64(r.Intn(800000000)) // 2000-01-01 .. 2025
+		if c.Kind == "date" || r.Chance(1, 3) {
+			sec -= sec % 86400
+		}
+		if r.Chance(1, 8) {
+			sec = sec - sec%86400 + 86399 // 23:59:59
+			if c.Kind == "date" {
+				sec -= 86399
+			}
+		}
+		return sp(strconv.FormatInt(sec, 10))
 	}
 	if c.Kind == "varchar" {
 		n := r.Intn(c.N + 1)
@@ -251,12 +422,28 @@ func redefineEnum(r *lib.RNG, old []string) []string {
 	return vs
 }
 
+func genDecimal(r *lib.RNG) (int, int) {
+	p := r.Range(1, 12)
+	return p, r.Intn(p+1) % 7
+}
+
 func genCol(r *lib.RNG, id int) ColT {
 	if r.Chance(1, 6) {
 		return ColT{ID: id, Kind: "enum", Vals: genEnumVals(r), Null: r.Chance(2, 3)}
 	}
+	if r.Chance(1, 6) {
+		p, sc := genDecimal(r)
+		return ColT{ID: id, Kind: "decimal", N: p, S: sc, Null: r.Chance(2, 3)}
+	}
+	if r.Chance(1, 8) {
+		return ColT{ID: id, Kind: lib.Pick(r, []string{"date", "datetime"}), Null: r.Chance(2, 3)}
+	}
 	if r.Chance(1, 3) {
-		return ColT{ID: id, Kind: "varchar", N: lib.Pick(r, []int{1, 3, 5, 10, 20}), Null: r.Chance(2, 3)}
+		cl := 0
+		if r.Chance(1, 4) {
+			cl = r.Intn(len(collations))
+		}
+		return ColT{ID: id, Kind: "varchar", N: lib.Pick(r, []int{1, 3, 5, 10, 20}), Coll: cl, Null: r.Chance(2, 3)}
 	}
 	return ColT{ID: id, Kind: lib.Pick(r, intKinds), Null: r.Chance(2, 3)}
 }
@@ -266,8 +453,21 @@ func genCol(r *lib.RNG, id int) ColT {
 type state struct {
 	tn   int
 	cols []ColT
+	pk   []int
 	rows []map[int]*string
 }
+
+func (s *state) inPK(id int) bool {
+	for _, k := range s.pk {
+		if k == id {
+			return true
+		}
+	}
+	return false
+}
+
+// simplePK: no key or the key (id): rows are then visited in id order by a rewrite
+func (s *state) simplePK() bool { return len(s.pk) == 0 || (len(s.pk) == 1 && s.pk[0] == 0) }
 
 // apply is the generator's own reference for "does this statement succeed, and what are names/types afterwards"
 // (so that later statements of the sequence are meaningful); order of columns is not tracked.
@@ -283,7 +483,7 @@ func (s *state) apply(o Op) bool {
 		}
 	case "drop":
 		i := s.find(o.Name)
-		if i < 0 {
+		if i < 0 || s.inPK(o.Name) {
 			return false
 		}
 		s.cols = append(s.cols[:i:i], s.cols[i+1:]...)
@@ -292,9 +492,13 @@ func (s *state) apply(o Op) bool {
 		if i < 0 || (o.Col.ID != o.Name && s.find(o.Col.ID) >= 0) {
 			return false
 		}
+		nc := *o.Col
+		if s.inPK(o.Name) {
+			nc.Null = false
+		}
 		vals := make([]*string, len(s.rows))
 		for k, r := range s.rows {
-			v, isNull, ok := refConv(*o.Col, r[o.Name], s.cols[i])
+			v, isNull, ok := refConv(nc, r[o.Name], s.cols[i])
 			if !ok {
 				return false
 			}
@@ -307,7 +511,12 @@ func (s *state) apply(o Op) bool {
 			delete(r, o.Name)
 			r[o.Col.ID] = vals[k]
 		}
-		s.cols[i] = *o.Col
+		s.cols[i] = nc
+		for k := range s.pk {
+			if s.pk[k] == o.Name {
+				s.pk[k] = o.Col.ID
+			}
+		}
 	case "rename":
 		i := s.find(o.Name)
 		if i < 0 || s.find(o.To) >= 0 {
@@ -318,6 +527,42 @@ func (s *state) apply(o Op) bool {
 			delete(r, o.Name)
 		}
 		s.cols[i].ID = o.To
+		for k := range s.pk {
+			if s.pk[k] == o.Name {
+				s.pk[k] = o.To
+			}
+		}
+	case "addpk":
+		if len(s.pk) > 0 {
+			return false
+		}
+		seen := map[string]bool{}
+		for _, r := range s.rows {
+			key := ""
+			for _, k := range o.Keys {
+				if s.find(k) < 0 || r[k] == nil {
+					return false
+				}
+				key += *r[k] + "\x00"
+			}
+			if seen[key] {
+				return false
+			}
+			seen[key] = true
+		}
+		for _, k := range o.Keys {
+			if i := s.find(k); i >= 0 {
+				s.cols[i].Null = false
+			} else {
+				return false
+			}
+		}
+		s.pk = append([]int{}, o.Keys...)
+	case "droppk":
+		if len(s.pk) == 0 {
+			return false
+		}
+		s.pk = nil
 	case "renametable":
 		s.tn = o.To
 	}
@@ -350,7 +595,11 @@ func gen(r *lib.RNG) caseT {
 		}
 		cs.Rows = append(cs.Rows, row)
 	}
+	cs.PK = r.Bool()
 	st := &state{tn: 1, cols: append([]ColT{}, cs.Cols...)}
+	if cs.PK {
+		st.pk = []int{0}
+	}
 	for _, row := range cs.Rows {
 		m := map[int]*string{}
 		for i, c := range cs.Cols {
@@ -384,7 +633,27 @@ func gen(r *lib.RNG) caseT {
 			return ""
 		}
 		var o Op
-		switch kind := r.Intn(14); {
+		switch kind := r.Intn(17); {
+		case kind == 14 || kind == 15: // add primary key
+			var ks []int
+			for _, c := range st.cols {
+				if len(ks) < 2 && r.Chance(1, 2) {
+					ks = append(ks, c.ID)
+				}
+			}
+			if len(ks) == 0 {
+				ks = []int{lib.Pick(r, st.cols).ID}
+			}
+			if r.Bool() && len(ks) == 2 {
+				ks[0], ks[1] = ks[1], ks[0]
+			}
+			names := make([]string, len(ks))
+			for i, k := range ks {
+				names[i] = cname(k)
+			}
+			o = Op{Kind: "addpk", Keys: ks, SQL: []string{"ALTER TABLE " + t + " ADD PRIMARY KEY (" + strings.Join(names, ", ") + ")"}}
+		case kind == 16:
+			o = Op{Kind: "droppk", SQL: []string{"ALTER TABLE " + t + " DROP PRIMARY KEY"}}
 		case kind <= 2 || len(st.cols) == 1: // add
 			c := genCol(r, next)
 			if r.Chance(1, 8) && len(st.cols) > 1 {
@@ -396,9 +665,10 @@ func gen(r *lib.RNG) caseT {
 			def := ""
 			// (an ENUM NOT NULL column added without DEFAULT is filled with the invalid index 0, read back as '': outside
 			// the property - the filled value of a NEW column - and outside the model, so such columns always get a DEFAULT)
-			if r.Bool() || (c.Kind == "enum" && !c.Null) {
+			needDef := !c.Null && (c.Kind == "enum" || c.Kind == "decimal" || c.isTime())
+			if r.Bool() || needDef {
 				v := genVal(r, c)
-				for v == nil && c.Kind == "enum" && !c.Null {
+				for v == nil && needDef {
 					v = genVal(r, c)
 				}
 				if v != nil {
@@ -419,19 +689,41 @@ func gen(r *lib.RNG) caseT {
 			o.SQL = []string{"ALTER TABLE " + t + " ADD COLUMN " + cname(c.ID) + " " + c.sqlDef() + def + p}
 		case kind == 3: // drop
 			c := pickCol()
+			for tries := 0; st.inPK(c.ID) && tries < 5 && !r.Chance(1, 20); tries++ {
+				c = pickCol() // dropping a key column is rare (the engine panics: known finding)
+			}
 			if r.Chance(1, 8) {
 				c.ID = 90 + r.Intn(5) // missing column: must fail
 			}
 			o = Op{Kind: "drop", Name: c.ID, SQL: []string{"ALTER TABLE " + t + " DROP COLUMN " + cname(c.ID)}}
 		case kind <= 7: // modify / change, same family
 			c := pickCol()
+			for tries := 0; c.Kind == "enum" && !st.simplePK() && tries < 5; tries++ {
+				c = pickCol() // the order in which a rewrite visits rows is modelled only for no key / key (id)
+			}
+			if c.Kind == "enum" && !st.simplePK() {
+				continue
+			}
 			nc := c
-			if c.Kind == "varchar" {
-				nc.N = lib.Pick(r, []int{1, 2, 3, 5, 10, 20, 30})
-			} else if c.Kind == "enum" {
+			switch c.family() {
+			case "varchar":
+				if r.Bool() {
+					nc.N = lib.Pick(r, []int{1, 2, 3, 5, 10, 20, 30})
+				}
+				if r.Chance(1, 2) && !st.inPK(c.ID) { // collation change (not on key columns)
+					nc.Coll = r.Intn(len(collations))
+				}
+			case "enum":
 				nc.Vals = redefineEnum(r, c.Vals)
-			} else {
-				nc.Kind = lib.Pick(r, intKinds)
+			case "time":
+				nc.Kind = lib.Pick(r, []string{"date", "datetime"})
+			default: // numbers: integer types and DECIMAL
+				if r.Chance(1, 3) || (c.Kind == "decimal" && r.Bool()) {
+					nc.Kind = "decimal"
+					nc.N, nc.S = genDecimal(r)
+				} else {
+					nc.Kind, nc.N, nc.S = lib.Pick(r, intKinds), 0, 0
+				}
 			}
 			nc.Null = r.Chance(2, 3)
 			o = Op{Kind: "modify", Name: c.ID}
@@ -465,11 +757,11 @@ func gen(r *lib.RNG) caseT {
 		default: // implementation-only: cross-family MODIFY
 			c := pickCol()
 			nc := c
-			if c.Kind == "enum" {
+			if c.Kind == "enum" || c.Kind == "decimal" || c.isTime() {
 				continue
 			}
 			if c.Kind == "varchar" {
-				nc.Kind, nc.N = lib.Pick(r, intKinds), 0
+				nc.Kind, nc.N, nc.Coll = lib.Pick(r, intKinds), 0, 0
 			} else {
 				nc.Kind, nc.N = "varchar", lib.Pick(r, []int{2, 5, 20})
 			}
@@ -488,6 +780,7 @@ func gen(r *lib.RNG) caseT {
 
 type obsT struct {
 	tn   int
+	pk   []int
 	cols []ColT
 	rows [][]*string
 	desc []string
@@ -512,7 +805,8 @@ func colID(name string) int {
 
 func observe(s *eng.S, tn int) obsT {
 	o := obsT{tn: tn}
-	d := s.Query("DESCRIBE " + tname(tn))
+	// Field, Type, Collation, Null, Key, Default, Extra, Privileges, Comment
+	d := s.Query("SHOW FULL COLUMNS FROM " + tname(tn))
 	if d.Err != nil {
 		o.err = "describe: " + d.Err.Error()
 		return o
@@ -521,7 +815,17 @@ func observe(s *eng.S, tn int) obsT {
 	for _, row := range d.Rows {
 		ts := fmt.Sprint(row[1])
 		k, n := parseType(ts)
-		col := ColT{ID: colID(fmt.Sprint(row[0])), Kind: k, N: n, Null: fmt.Sprint(row[2]) == "YES"}
+		col := ColT{ID: colID(fmt.Sprint(row[0])), Kind: k, N: n, Null: fmt.Sprint(row[3]) == "YES"}
+		if k == "varchar" {
+			col.Coll = collID(fmt.Sprint(row[2]))
+		}
+		if strings.HasPrefix(ts, "decimal(") {
+			col.Kind = "decimal"
+			fmt.Sscanf(ts, "decimal(%d,%d)", &col.N, &col.S)
+		}
+		if fmt.Sprint(row[4]) == "PRI" {
+			o.pk = append(o.pk, col.ID)
+		}
 		if strings.HasPrefix(ts, "enum('") {
 			col.Kind = "enum"
 			col.Vals = strings.Split(strings.TrimSuffix(strings.TrimPrefix(ts, "enum('"), "')"), "','")
@@ -530,7 +834,7 @@ func observe(s *eng.S, tn int) obsT {
 			sel = append(sel, cname(col.ID))
 		}
 		o.cols = append(o.cols, col)
-		o.desc = append(o.desc, fmt.Sprintf("%v|%v|%v|%v", row[0], row[1], row[2], row[4]))
+		o.desc = append(o.desc, fmt.Sprintf("%v|%v|%v|%v|%v|%v", row[0], row[1], row[2], row[3], row[4], row[5]))
 	}
 	q := s.Query("SELECT " + strings.Join(sel, ", ") + " FROM " + tname(tn) + " ORDER BY id")
 	if q.Err != nil {
@@ -542,6 +846,8 @@ func observe(s *eng.S, tn int) obsT {
 		for _, v := range row {
 			if v == nil {
 				vs = append(vs, nil)
+			} else if tm, ok := v.(time.Time); ok {
+				vs = append(vs, sp(strconv.FormatInt(tm.Unix(), 10))) // canonical temporal value: seconds since the epoch
 			} else {
 				vs = append(vs, sp(fmt.Sprint(v)))
 			}
@@ -559,7 +865,7 @@ func (o obsT) coq() string {
 		}
 		return lib.CoqList(items)
 	})
-	return fmt.Sprintf("(mkt %d %s %s)", o.tn, lib.CoqListOf(o.cols, ColT.coq), rows)
+	return fmt.Sprintf("(mkt %d %s %s %s)", o.tn, lib.CoqListOf(o.cols, ColT.coq), lib.CoqListOf(o.pk, strconv.Itoa), rows)
 }
 
 func (o obsT) column(id int) ([]*string, bool) {
@@ -627,6 +933,10 @@ func coqOp(o Op) string {
 		return fmt.Sprintf("(ORename %d %d)", o.Name, o.To)
 	case "renametable":
 		return fmt.Sprintf("(ORenameTable %d)", o.To)
+	case "addpk":
+		return "(OAddPK " + lib.CoqListOf(o.Keys, strconv.Itoa) + ")"
+	case "droppk":
+		return "ODropPK"
 	}
 	return "OIndex"
 }
@@ -638,7 +948,10 @@ func run(c *lib.Ctx, cs caseT) {
 	for i, col := range cs.Cols {
 		defs[i] = cname(col.ID) + " " + col.sqlDef()
 	}
-	s.MustExec("CREATE TABLE t1 (" + strings.Join(defs, ", ") + ", PRIMARY KEY (id))")
+	if cs.PK {
+		defs = append(defs, "PRIMARY KEY (id)")
+	}
+	s.MustExec("CREATE TABLE t1 (" + strings.Join(defs, ", ") + ")")
 	for _, row := range cs.Rows {
 		vals := make([]string, len(row))
 		for i, v := range row {
@@ -658,7 +971,21 @@ func run(c *lib.Ctx, cs caseT) {
 		for _, q := range o.SQL {
 			if r := s.Query(q); r.Err != nil {
 				err = r.Err
+				if r.Panic != "" {
+					sig := o.Kind + "/panic"
+					if o.Kind == "drop" && findInts(cur.pk, o.Name) {
+						sig = "drop-primary-key-column-panics"
+					}
+					fails = append(fails, fail{sig, fmt.Sprintf("%q panicked: %s", o.SQL, r.Panic)})
+				}
 				break
+			}
+		}
+		eff := ColT{}
+		if o.Col != nil {
+			eff = *o.Col
+			if (o.Kind == "modify" || o.Kind == "modifyx") && findInts(cur.pk, o.Name) {
+				eff.Null = false // a key column stays NOT NULL whatever the statement says
 			}
 		}
 		tn := cur.tn
@@ -685,8 +1012,6 @@ func run(c *lib.Ctx, cs caseT) {
 				fails = append(fails, fail{sig,
 					fmt.Sprintf("%q failed (%v) but the table changed: before %s, after %s", o.SQL, err, cur.dump(), after.dump())})
 				if sig == "enum-failed-redefinition-remapped-earlier-rows" {
-					// the model does not mirror this known defect (in-place re-indexing by a failing rewrite): the model
-					// comparison of this case ends before the step; the predicate reports it
 					enumDefect = true
 				}
 			}
@@ -703,7 +1028,7 @@ func run(c *lib.Ctx, cs caseT) {
 						}
 					case "modify", "modifyx":
 						if oc.ID == o.Name {
-							newID, nc, retyped = o.Col.ID, *o.Col, true
+							newID, nc, retyped = o.Col.ID, eff, true
 						}
 					case "rename":
 						if oc.ID == o.Name {
@@ -762,8 +1087,34 @@ func run(c *lib.Ctx, cs caseT) {
 					if i := findCol(after.cols, o.Col.ID); i < 0 || after.cols[i].sqlDef() != o.Col.sqlDef() {
 						fails = append(fails, fail{"add/describe-does-not-show-column", fmt.Sprintf("after %q DESCRIBE is %v", o.SQL, after.desc)})
 					}
+				case "addpk":
+					if !sameSet(after.pk, o.Keys) {
+						fails = append(fails, fail{"addpk/describe-does-not-show-key", fmt.Sprintf("after %q the PRI columns are %v", o.SQL, after.pk)})
+					}
+					seen := map[string]bool{}
+					for ri := range cur.rows {
+						key := ""
+						for _, k := range o.Keys {
+							col, _ := cur.column(k)
+							if col == nil || col[ri] == nil {
+								fails = append(fails, fail{"addpk/succeeded-with-null-key", fmt.Sprintf("%q succeeded although a key column holds NULL", o.SQL)})
+								key = "?"
+								break
+							}
+							key += *col[ri] + "\x00"
+						}
+						if seen[key] && key != "?" {
+							fails = append(fails, fail{"addpk/succeeded-with-duplicate-key", fmt.Sprintf("%q succeeded although two rows have the same key", o.SQL)})
+							break
+						}
+						seen[key] = true
+					}
+				case "droppk":
+					if len(after.pk) != 0 {
+						fails = append(fails, fail{"droppk/describe-still-shows-key", fmt.Sprintf("after %q the PRI columns are %v", o.SQL, after.pk)})
+					}
 				case "modify", "modifyx":
-					if i := findCol(after.cols, o.Col.ID); i < 0 || after.cols[i].sqlDef() != o.Col.sqlDef() {
+					if i := findCol(after.cols, o.Col.ID); i < 0 || after.cols[i].sqlDef() != eff.sqlDef() {
 						fails = append(fails, fail{o.Kind + "/describe-does-not-show-new-definition", fmt.Sprintf("after %q DESCRIBE is %v", o.SQL, after.desc)})
 					}
 				case "drop":
@@ -777,11 +1128,14 @@ func run(c *lib.Ctx, cs caseT) {
 				}
 			}
 		}
-		if o.Kind == "uniq" || o.Kind == "modifyx" || enumDefect {
+		if o.Kind == "uniq" || o.Kind == "modifyx" {
 			break
 		}
 		if !(o.Kind == "index" && err != nil) { // OIndex carries no column: a rejected index statement is not a model step
 			steps = append(steps, lib.CoqTuple(coqOp(o), lib.CoqTuple(lib.CoqBool(err == nil), after.coq())))
+		}
+		if enumDefect {
+			break // the step itself is compared with the model ([corrupt]); afterwards the stored indexes are out of the model
 		}
 		cur = after
 	}
@@ -797,6 +1151,27 @@ func run(c *lib.Ctx, cs caseT) {
 	for _, f := range fails {
 		c.PredFail(id, f.sig, f.what, cs)
 	}
+}
+
+func findInts(l []int, x int) bool {
+	for _, y := range l {
+		if y == x {
+			return true
+		}
+	}
+	return false
+}
+
+func sameSet(a, b []int) bool {
+	if len(a) != len(b) {
+		return false
+	}
+	for _, x := range a {
+		if !findInts(b, x) {
+			return false
+		}
+	}
+	return true
 }
 
 func findCol(cols []ColT, id int) int {
@@ -826,7 +1201,7 @@ func main() {
 		}
 		big5 := "5000000000"
 		corpus := []caseT{
-			{Cols: []ColT{{ID: 0, Kind: "int"}, {ID: 1, Kind: "bigint", Null: true}, {ID: 2, Kind: "varchar", N: 10, Null: true}},
+			{PK: true, Cols: []ColT{{ID: 0, Kind: "int"}, {ID: 1, Kind: "bigint", Null: true}, {ID: 2, Kind: "varchar", N: 10, Null: true}},
 				Rows: [][]*string{{sp("1"), &big5, sp("hello")}, {sp("2"), sp("-3"), nil}},
 				Ops: []Op{
 					{Kind: "modify", Name: 1, Col: &ColT{ID: 1, Kind: "int", Null: true}, SQL: []string{"ALTER TABLE t1 MODIFY COLUMN c1 int"}},
@@ -841,12 +1216,12 @@ func main() {
 		}
 		corpus = append(corpus,
 			// known finding: a failing ENUM redefinition re-indexes the rows visited before the failure
-			caseT{Cols: []ColT{{ID: 0, Kind: "int"}, {ID: 2, Kind: "enum", Vals: []string{"Z", "m"}, Null: true}},
+			caseT{PK: true, Cols: []ColT{{ID: 0, Kind: "int"}, {ID: 2, Kind: "enum", Vals: []string{"Z", "m"}, Null: true}},
 				Rows: [][]*string{{sp("1"), sp("m")}, {sp("2"), sp("Z")}, {sp("3"), nil}, {sp("4"), sp("m")}},
 				Ops: []Op{{Kind: "modify", Name: 2, Col: &ColT{ID: 2, Kind: "enum", Vals: []string{"m"}, Null: false}, Pos: "first",
 					SQL: []string{"ALTER TABLE t1 MODIFY COLUMN c2 enum('m') NOT NULL FIRST"}}}},
 			// ENUM redefinitions that keep all members: reorder, insert before / among
-			caseT{Cols: []ColT{{ID: 0, Kind: "int"}, {ID: 1, Kind: "enum", Vals: []string{"a", "b", "c"}, Null: true}},
+			caseT{PK: true, Cols: []ColT{{ID: 0, Kind: "int"}, {ID: 1, Kind: "enum", Vals: []string{"a", "b", "c"}, Null: true}},
 				Rows: [][]*string{{sp("1"), sp("a")}, {sp("2"), sp("c")}, {sp("3"), nil}, {sp("4"), sp("b")}},
 				Ops: []Op{
 					{Kind: "modify", Name: 1, Col: &ColT{ID: 1, Kind: "enum", Vals: []string{"c", "a", "b"}, Null: true}, SQL: []string{"ALTER TABLE t1 MODIFY COLUMN c1 enum('c','a','b')"}},
@@ -854,7 +1229,7 @@ func main() {
 					{Kind: "modify", Name: 1, Col: &ColT{ID: 1, Kind: "enum", Vals: []string{"x", "c", "m", "a", "b", "q1"}, Null: true}, SQL: []string{"ALTER TABLE t1 MODIFY COLUMN c1 enum('x','c','m','a','b','q1')"}},
 				}},
 			// narrowing with out-of-range stored values on the rewrite path (NULL -> NOT NULL, FIRST / AFTER): must fail without effect
-			caseT{Cols: []ColT{{ID: 0, Kind: "int"}, {ID: 1, Kind: "smallint", Null: true}, {ID: 2, Kind: "int", Null: true}},
+			caseT{PK: true, Cols: []ColT{{ID: 0, Kind: "int"}, {ID: 1, Kind: "smallint", Null: true}, {ID: 2, Kind: "int", Null: true}},
 				Rows: [][]*string{{sp("1"), sp("300"), sp("-200")}, {sp("2"), sp("5"), sp("70000")}},
 				Ops: []Op{
 					{Kind: "modify", Name: 1, Col: &ColT{ID: 1, Kind: "tinyint", Null: false}, SQL: []string{"ALTER TABLE t1 MODIFY COLUMN c1 tinyint NOT NULL"}},
@@ -864,13 +1239,51 @@ func main() {
 					{Kind: "modify", Name: 2, Col: &ColT{ID: 2, Kind: "bigint", Null: false}, Pos: "first", SQL: []string{"ALTER TABLE t1 MODIFY COLUMN c2 bigint NOT NULL FIRST"}},
 				}},
 			// nullable -> NOT NULL over rows holding NULL must fail (no silent zero fill)
-			caseT{Cols: []ColT{{ID: 0, Kind: "int"}, {ID: 1, Kind: "int", Null: true}, {ID: 2, Kind: "varchar", N: 5, Null: true}},
+			caseT{PK: true, Cols: []ColT{{ID: 0, Kind: "int"}, {ID: 1, Kind: "int", Null: true}, {ID: 2, Kind: "varchar", N: 5, Null: true}},
 				Rows: [][]*string{{sp("1"), nil, sp("x")}, {sp("2"), sp("4"), nil}},
 				Ops: []Op{
 					{Kind: "modify", Name: 1, Col: &ColT{ID: 1, Kind: "int", Null: false}, SQL: []string{"ALTER TABLE t1 MODIFY COLUMN c1 int NOT NULL"}},
 					{Kind: "modify", Name: 2, Col: &ColT{ID: 2, Kind: "varchar", N: 5, Null: false}, SQL: []string{"ALTER TABLE t1 MODIFY COLUMN c2 varchar(5) NOT NULL"}},
 					{Kind: "add", Col: &ColT{ID: 3, Kind: "int", Null: false}, Fill: sp("0"), SQL: []string{"ALTER TABLE t1 ADD COLUMN c3 int NOT NULL"}},
 					{Kind: "add", Col: &ColT{ID: 4, Kind: "varchar", N: 3, Null: false}, Fill: sp(""), Pos: "first", SQL: []string{"ALTER TABLE t1 ADD COLUMN c4 varchar(3) NOT NULL FIRST"}},
+				}},
+		)
+		corpus = append(corpus,
+			// primary keys: NULL / duplicate keys make ADD PRIMARY KEY fail, a second key fails, DROP keeps NOT NULL
+			caseT{PK: false, Cols: []ColT{{ID: 0, Kind: "int"}, {ID: 1, Kind: "int", Null: true}, {ID: 2, Kind: "varchar", N: 5, Null: true}, {ID: 3, Kind: "int", Null: true}},
+				Rows: [][]*string{{sp("1"), sp("5"), sp("a"), sp("1")}, {sp("2"), nil, sp("b"), sp("1")}, {sp("3"), sp("7"), sp("a"), sp("2")}},
+				Ops: []Op{
+					{Kind: "addpk", Keys: []int{1}, SQL: []string{"ALTER TABLE t1 ADD PRIMARY KEY (c1)"}},
+					{Kind: "addpk", Keys: []int{3}, SQL: []string{"ALTER TABLE t1 ADD PRIMARY KEY (c3)"}},
+					{Kind: "addpk", Keys: []int{3, 2}, SQL: []string{"ALTER TABLE t1 ADD PRIMARY KEY (c3, c2)"}},
+					{Kind: "addpk", Keys: []int{0}, SQL: []string{"ALTER TABLE t1 ADD PRIMARY KEY (id)"}},
+					{Kind: "modify", Name: 3, Col: &ColT{ID: 3, Kind: "bigint", Null: true}, SQL: []string{"ALTER TABLE t1 MODIFY COLUMN c3 bigint"}},
+					{Kind: "rename", Name: 3, To: 9, SQL: []string{"ALTER TABLE t1 RENAME COLUMN c3 TO c9"}},
+					{Kind: "droppk", SQL: []string{"ALTER TABLE t1 DROP PRIMARY KEY"}},
+					{Kind: "droppk", SQL: []string{"ALTER TABLE t1 DROP PRIMARY KEY"}},
+				}},
+			// known finding: DROP COLUMN of a key column panics
+			caseT{PK: false, Cols: []ColT{{ID: 0, Kind: "int"}, {ID: 1, Kind: "int", Null: false}},
+				Rows: [][]*string{{sp("1"), sp("5")}},
+				Ops: []Op{
+					{Kind: "addpk", Keys: []int{1}, SQL: []string{"ALTER TABLE t1 ADD PRIMARY KEY (c1)"}},
+					{Kind: "drop", Name: 1, SQL: []string{"ALTER TABLE t1 DROP COLUMN c1"}},
+				}},
+			// decimal / temporal / collation conversions
+			caseT{PK: true, Cols: []ColT{{ID: 0, Kind: "int"}, {ID: 1, Kind: "decimal", N: 6, S: 2, Null: true}, {ID: 2, Kind: "int", Null: true},
+				{ID: 3, Kind: "date", Null: true}, {ID: 4, Kind: "datetime", Null: true}, {ID: 5, Kind: "varchar", N: 5, Null: true}},
+				Rows: [][]*string{{sp("1"), sp("1234.56"), sp("99999"), sp("1582934400"), sp("1614834367"), sp("ab")},
+					{sp("2"), sp("-0.05"), sp("-7"), sp("946598400"), sp("946684800"), sp("Z")}, {sp("3"), nil, nil, nil, nil, nil}},
+				Ops: []Op{
+					{Kind: "modify", Name: 1, Col: &ColT{ID: 1, Kind: "decimal", N: 5, S: 1, Null: true}, SQL: []string{"ALTER TABLE t1 MODIFY COLUMN c1 decimal(5,1)"}},
+					{Kind: "modify", Name: 1, Col: &ColT{ID: 1, Kind: "decimal", N: 4, S: 1, Null: true}, SQL: []string{"ALTER TABLE t1 MODIFY COLUMN c1 decimal(4,1)"}},
+					{Kind: "modify", Name: 2, Col: &ColT{ID: 2, Kind: "decimal", N: 6, S: 1, Null: true}, SQL: []string{"ALTER TABLE t1 MODIFY COLUMN c2 decimal(6,1)"}},
+					{Kind: "modify", Name: 2, Col: &ColT{ID: 2, Kind: "decimal", N: 7, S: 2, Null: true}, SQL: []string{"ALTER TABLE t1 MODIFY COLUMN c2 decimal(7,2)"}},
+					{Kind: "modify", Name: 1, Col: &ColT{ID: 1, Kind: "smallint", Null: true}, SQL: []string{"ALTER TABLE t1 MODIFY COLUMN c1 smallint"}},
+					{Kind: "modify", Name: 3, Col: &ColT{ID: 3, Kind: "datetime", Null: true}, SQL: []string{"ALTER TABLE t1 MODIFY COLUMN c3 datetime"}},
+					{Kind: "modify", Name: 4, Col: &ColT{ID: 4, Kind: "date", Null: true}, SQL: []string{"ALTER TABLE t1 MODIFY COLUMN c4 date"}},
+					{Kind: "modify", Name: 5, Col: &ColT{ID: 5, Kind: "varchar", N: 5, Coll: 1, Null: true}, SQL: []string{"ALTER TABLE t1 MODIFY COLUMN c5 varchar(5) CHARACTER SET utf8mb4 COLLATE utf8mb4_0900_ai_ci"}},
+					{Kind: "modify", Name: 5, Col: &ColT{ID: 5, Kind: "varchar", N: 9, Coll: 4, Null: true}, SQL: []string{"ALTER TABLE t1 MODIFY COLUMN c5 varchar(9) CHARACTER SET latin1 COLLATE latin1_swedish_ci"}},
 				}},
 		)
 		for _, cs := range corpus {
